@@ -43,7 +43,7 @@ class Spec(pipeprops.PropSpec):
             "non-trivial = some class with >= 2 instances and some non-typing triple")
 
     def gen_cases(self, tier, rnd):
-        n = 20000 if tier == "thorough" else 900
+        n = 40000 if tier == "thorough" else 2000
         cases = []
         for i in range(n):
             r = random.Random(rnd.getrandbits(48))
